@@ -181,20 +181,24 @@ def inject_file(ctx, tag, ops):
                       "lean_monitor": lean_v, "go_oracle": go_v}
         ctx.note_case(canon, status == "injected", sample)
         lt, gt = lean_v.split(), go_v.split()
-        if lt[:2] != gt[:2]:
+        known_class = gt[:2] == ["FAIL", "idempotent-podports-user-proxy-ports"]  # oracle's exact classification of finding F10e
+        if lt[:2] != gt[:2] and not (known_class and lt[:2] == ["FAIL", "idempotent"]):
             ctx.tie_broken("monitor-vs-oracle:inject",
                            "the Lean monitor and the Go oracle judge the same run differently: lean=%r oracle=%r" % (lean_v, go_v),
                            {"stream": "inject", "ops": c})
             ok = False
         bad = lean_v if lt[0] == "FAIL" else (go_v if gt[0] == "FAIL" else None)
         if bad:
-            ok = False
-            clause = "-".join(lean_v.split()[1:3]) if lt[0] == "FAIL" else gt[1]
+            nviol = len(ctx.violations)
+            clause = gt[1] if known_class else ("-".join(lean_v.split()[1:3]) if lt[0] == "FAIL" else gt[1])
             ctx.violation("inject:%s" % clause,
                           "the real webhook inject path violates '%s' (%s): lean monitor: %s ; go oracle: %s"
                           % (clause, " ".join(c[1].split()[:3])[:120] if len(c) > 1 else "?", lean_v, urllib.parse.unquote(go_v)[:300]),
                           {"stream": "inject", "ops": c, "lean_monitor": lean_v, "oracle_verdict": urllib.parse.unquote(go_v),
                            "reduced_pods": [l[:400] for l in seg if not l.startswith("src")][:120]}, True)
+            if len(ctx.violations) > nviol or not any(h["fingerprint"] == "inject:%s" % clause for h in ctx.known_hits):
+                ok = False  # (a fingerprint listed as known in known-findings.json is reported as KNOWN-FINDING only)
+            ctx.count("inject.rejected.%s" % clause)
     return len(cases), ok
 
 
